@@ -342,7 +342,7 @@ class Spec:
             "the ordered (process, operation boundary / result) sequence among the non-trivial runs")
 
     def runs(self, tier):
-        return 3000 if tier == "quick" else 200000
+        return 4500 if tier == "quick" else 200000
 
     def wall_budget(self, tier):
         return 150 if tier == "quick" else 3000
